@@ -11,6 +11,8 @@ use sea_query::Value;
 pub struct X { pub b: B }
 
 pub fn render(b: B, q: &Query) -> String { X { b }.q(q) }
+pub fn cond_sql(b: B, c: &Cond) -> String { X { b }.cond(c) }
+pub fn ex_sql(b: B, e: &Ex) -> String { X { b }.ex(e) }
 
 impl X {
     fn qi(&self, s: &str) -> String { if self.b == B::Mysql { format!("`{}`", s.replace('`', "``")) } else { format!("\"{}\"", s.replace('"', "\"\"")) } }
@@ -67,7 +69,7 @@ impl X {
             Ex::Case(ws, el) => format!("(CASE{}{} END)", ws.iter().map(|(c, x)| format!(" WHEN {} THEN {}", self.cond(c), self.ex(x))).collect::<String>(), el.as_ref().map(|x| format!(" ELSE {}", self.ex(x))).unwrap_or_default()),
         }
     }
-    fn cond(&self, c: &Cond) -> String {
+    pub fn cond(&self, c: &Cond) -> String {
         let items: Vec<String> = c.items.iter().map(|i| match i { Item::C(c) => self.cond(c), Item::E(e) => format!("({})", self.ex(e)) }).collect();
         let body = if items.is_empty() { if c.any { "(FALSE)".to_string() } else { "(TRUE)".to_string() } } else { format!("({})", items.join(if c.any { " OR " } else { " AND " })) };
         if c.neg { format!("(NOT {body})") } else { body }
